@@ -15,6 +15,8 @@ type FuncVC struct {
 	Key        string
 	Label      string
 	Prefix     string
+	Decls      []string // with Asserts: the prefix in pieces, so an obligation can be given only the assumptions that precede it
+	Asserts    []string
 	Obls       []*Obl
 	Notes      []string
 	Callees    map[string]string
@@ -153,6 +155,9 @@ func genFunction(ld *Loader, specs *Specs, fn *ssa.Function, ct *Contract, opts 
 	tr.pre = st.clone()
 	// axioms
 	for _, ax := range specs.Axioms {
+		if p := g.opts.Prop; p != "" && len(ax.Props) > 0 && !hasProp(ax.Props, p) {
+			continue // an axiom only the named properties' proofs need (quantified axioms perturb unrelated queries)
+		}
 		env := tr.newEnv(tr.pre, tr.pre)
 		env.pkg = tr.pkg
 		e.assertRaw(env.evalBool(ax.AST))
@@ -260,6 +265,7 @@ func genFunction(ld *Loader, specs *Specs, fn *ssa.Function, ct *Contract, opts 
 		}
 	}
 	vc.Prefix = e.prefix()
+	vc.Decls, vc.Asserts = e.decls, e.asserts
 	vc.Obls = e.obls
 	vc.Notes = e.notes
 	vc.Callees = g.calleesUsed
